@@ -12,7 +12,7 @@ RULE = ("tree of four 131073-byte files that share prefix and suffix (two equal,
         "small files, on ext4 (deleted inode numbers are reused at once); events: edits {set content variant (same "
         "length; also with the new mtime in the past of the old one), append, truncate, rename, delete+recreate, hard-link, create, edit a small file} - every edit advances "
         "the file's mtime by 10 ms - and runs `group --cache` with a configuration from {metro, blake3} x {no transform, "
-        "transform keep} x --max-prefix-size {unset, 8192}, or a run SIGKILLed at 1/4, 1/2, 3/4 of its call history; "
+        "transform cat} x --max-prefix-size {unset, 8192} or with the length-changing transform `head -c 1000`, or a run SIGKILLed at 1/4, 1/2, 3/4 of its call history; "
         "ALL histories (edit, run)^d after an initial cache-filling run: quick d=2 over 10 edits x 2 configurations; "
         "thorough d=2 over the full alphabet and d=3 over 6 edits x 2 configurations (+ killed runs). A state is the "
         "tree + cache after a history prefix; a transition is one event. Invariant after every run: the report body "
@@ -44,6 +44,8 @@ CONFIGS = {
     "blake3_tr": ["--hash-fn", "blake3"] + ["--transform", "cat"],
     "metro_tr_p8k": ["--hash-fn", "metro", "--max-prefix-size", "8192"] + ["--transform", "cat"],
     "blake3_tr_p8k": ["--hash-fn", "blake3", "--max-prefix-size", "8192"] + ["--transform", "cat"],
+    # a transform that changes the length: files of different input length get identical output
+    "metro_head": ["--hash-fn", "metro", "--transform", "head -c 1000"],
 }
 
 
@@ -54,7 +56,7 @@ def prepare(tier):
 def cases(tier, seed):
     out = []
     if tier == "quick":
-        steps = [(e, c) for e in EDITS_QUICK for c in ("metro", "metro_tr")]
+        steps = [(e, c) for e in EDITS_QUICK for c in ("metro", "metro_head")]
         for h in itertools.product(steps, repeat=2):
             out.append({"history": [list(map(list, h))[i] for i in range(2)], "kills": False})
     else:
@@ -180,7 +182,7 @@ def evaluate(case):
             return body(C.parse_json_report(out)), err.decode("utf-8", "replace")
 
         # initial cache-filling runs
-        for cfg in ("metro", "metro_tr"):
+        for cfg in ("metro", "metro_tr", "metro_head"):
             b1, e1 = run(cfg, True)
             if b1 is None:
                 raise C.MachineryError("initial cached run failed: %s" % e1[-300:])
